@@ -182,6 +182,11 @@ def run(tier, seed, replay=None):
             for sig, msg, i in l1.mon_c06(case, intents, ob)[:1]:
                 ck.fail("agent:" + sig, msg, {"input": case, "event": i})
         ck.notes["agent_level_histories"] = len(lcases)
+        from props.l1common import run_soak
+        d2 = {}
+        run_soak(ck, binary, rng, lambda c_, it, ob: [("agent:" + s_, m_, i_) for s_, m_, i_ in l1.mon_c06(c_, it, ob) + l1.mon_c02(c_, it, ob)],
+                 d2, scenarios=l1.pool_scenarios(rng))
+        ck.notes["agent_level_scenarios"] = d2
     except HarnessError as e:
         ck.tie("agent-level histories run", False, str(e)[-800:])
     return ck.finish()
